@@ -272,7 +272,7 @@ def explore(tier, prop, passes=None, templates=None):
     # aborting paths and paths over the step budget (non-termination candidates) are re-run natively; only what the machine confirms is reported
     bad = [r for r in all_recs if r["kind"] in ("panic", "memerr", "unreachable") or (r["kind"] == "inconclusive" and "step budget" in str(r.get("detail")))]
     bad = [r for r in bad if r.get("input") is not None]
-    nat = native.run_native(b["so"], [bytes(r["input"]) for r in bad[:200]], len_div=4, extra=(mode,), timeout_per_input=5.0)
+    nat = native.run_native(b["so"], [bytes(r["input"]) for r in bad[:200]], len_div=4, extra=(mode,), timeout_per_input=10.0, each=True)
     for r, x in zip(bad, nat):
         r["native"] = x
         if r["kind"] == "inconclusive" and x.get("timeout"):
